@@ -59,7 +59,12 @@ def oracle_after(iw, line, out, res, hist_lines):
         if o.length != want:
             res.violation('dtype-default-length', {'history': hist_lines}, repr(o), 'length %d' % want)
     if o.length is not None:
-        c = ~o
+        try:
+            c = ~o
+        except Exception as e:
+            res.violation('invert-raises:' + type(e).__name__, {'history': hist_lines}, '~%r raised %s' % (o, type(e).__name__),
+                          'the complement with the toggled name and the same length')
+            return
         ok = (c.name == (o.name[:-1] if o.name.endswith('*') else o.name + '*')) and c.length == o.length and (~c is o) \
             and cls._instanceNames.get(c.name) is c
         if not ok:
@@ -88,6 +93,10 @@ def run(res, proof):
             hl.append(l); ho.append(o)
             hl.append('names'); ho.append(iw.do('names'))
             oracle_after(iw, l, o, res, hl)      # may create complements: mirror that in the history
+            bad = hist.domain_lengths_agree(iw)
+            if bad:
+                res.violation('complement-length-mismatch', {'history': list(hl)}, bad, 'a domain and its complement have equal length')
+                return
             if o.startswith('ret h') and iw.held[int(o.split(' ')[1][1:])].length is not None:
                 h = o.split(' ')[1]
                 l2 = 'inv\t' + h
